@@ -52,6 +52,14 @@ def tee_taps(program):
         path = '%s/%d:in' % (path, i)
 
 
+def sched_extra(case):
+    """the pipeline is subscribed with an explicit scheduler object when the case asks for it"""
+    if case.get('scheduler'):
+        from rx.scheduler import ImmediateScheduler
+        return {'the_scheduler': ImmediateScheduler()}
+    return None
+
+
 class C08(PipelineCheck):
     id = 'C08'
     title = 'tee_map = branches run independently, joined'
@@ -65,7 +73,7 @@ class C08(PipelineCheck):
             'on one value into a branch: the tee must then end with on_error in the source event, and with the error, with which that branch '
             'ends when run alone')
     assumptions = ['order of branch outputs inside one input item is branch order (the statement\'s "in branch order per source event")']
-    probe_names = ('fatal_error_in_branch', 'branches>=3', 'join:zip', 'join:merge', 'join:combine_latest', 'reused_slot', 'unequal_rates', 'nested_tee',
+    probe_names = ('subscribed_with_scheduler', 'fatal_error_in_branch', 'branches>=3', 'join:zip', 'join:merge', 'join:combine_latest', 'reused_slot', 'unequal_rates', 'nested_tee',
                    'plain_mode', 'window_in_branch', 'silent_branch_lifetime')
     weights = {'tee_map': 5, 'filter': 6, 'flat_map': 4, 'map': 6, 'scan': 5, 'batch': 4, 'last': 3, 'to_list': 3, 'count': 3, 'take': 3,
                'first': 2, 'progress': 0, 'roll': 2, 'split': 2, 'group_by': 2, 'time_split': 0}
@@ -92,6 +100,16 @@ class C08(PipelineCheck):
             tee, _, _ = tee_taps(c2['program'])
             b = rng.choice(tee['branches'])
             b.insert(rng.randrange(len(b) + 1), {'op': 'assert_', 'pred': 'not7'})
+            if self.valid(c2):
+                return c2
+        if rng.random() < 0.12:
+            # the pipeline is subscribed with an explicit scheduler and a branch contains an operator that depends on the
+            # subscribe-time scheduler (as rx's time operators do): it must see the same scheduler as when the branch runs alone
+            c2 = copy.deepcopy(case)
+            tee, _, _ = tee_taps(c2['program'])
+            b = rng.choice(tee['branches'])
+            b.insert(rng.randrange(len(b) + 1), {'op': 'sched_tag'})
+            c2['scheduler'] = True
             if self.valid(c2):
                 return c2
         return case
@@ -151,9 +169,9 @@ class C08(PipelineCheck):
         for bi, b in enumerate(tee['branches']):
             prog2, tail2 = branch_alone(program, bi)
             if plain:
-                c2, f2, e2 = run_plain(prog2, items, case['end'])
+                c2, f2, e2 = run_plain(prog2, items, case['end'], extra=sched_extra(case))
             else:
-                c2, f2, e2 = run_mux(prog2, case['events'], case['end'], monitor=False)
+                c2, f2, e2 = run_mux(prog2, case['events'], case['end'], monitor=False, extra=sched_extra(case))
             if c2.aborted:
                 return 'aborted'
             alone[bi] = [(s, k, key, v) for _, s, k, key, v in c2.taps.get(tail2, []) if k in ('N', 'C', 'D', 'E')]
@@ -204,9 +222,9 @@ class C08(PipelineCheck):
         p = out.probes
         if plain:
             items = [e['v'] for e in case['events']]
-            ctx, final, escaped = run_plain(program, items, case['end'])
+            ctx, final, escaped = run_plain(program, items, case['end'], extra=sched_extra(case))
         else:
-            ctx, final, escaped = run_mux(program, case['events'], case['end'], monitor=False)
+            ctx, final, escaped = run_mux(program, case['events'], case['end'], monitor=False, extra=sched_extra(case))
         if ctx.aborted:
             p['aborted_work_budget'] += 1
             return out
@@ -233,9 +251,9 @@ class C08(PipelineCheck):
             intee = ctx.taps.get('%s/%d:b%d/%d' % (path, i, bi, len(b)), [])
             prog2, tail2 = branch_alone(program, bi)
             if plain:
-                c2, f2, e2 = run_plain(prog2, items, case['end'])
+                c2, f2, e2 = run_plain(prog2, items, case['end'], extra=sched_extra(case))
             else:
-                c2, f2, e2 = run_mux(prog2, case['events'], case['end'], monitor=False)
+                c2, f2, e2 = run_mux(prog2, case['events'], case['end'], monitor=False, extra=sched_extra(case))
             if c2.aborted:
                 continue
             alone = c2.taps.get(tail2, [])
@@ -277,6 +295,8 @@ class C08(PipelineCheck):
             p['nested_tee'] += 1
         if any(ops_in(b) & {'roll', 'split', 'group_by'} for b in tee['branches']):
             p['window_in_branch'] += 1
+        if case.get('scheduler'):
+            p['subscribed_with_scheduler'] += 1
         if plain:
             p['plain_mode'] += 1
         if case['end'] != 'complete':
